@@ -107,6 +107,11 @@ fn check(case: &Case, st: &mut Stats) -> Vec<Violation> {
     st.observe(case, &h);
     if let Outcome::Panic(_) | Outcome::Wedge(_) = h.outcome { st.discarded_by_crash += 1; return vec![]; }
     let mut v = vec![];
+    let quiet = case.script.args.iter().any(|a| a.starts_with("--display-info=") && a.contains('Q'));
+    if !quiet && !h.steps.is_empty() && h.steps.iter().all(|s| s.out.is_empty() && s.pre_out.is_empty()) {
+        // not even the start-up legend was seen: printing no longer goes through print!/println!
+        return vec![viol("HARNESS.stdout-seam-bypassed", 0, "nothing at all was printed through the stdout seam (not even the legend); the counter line cannot be observed".into(), json!({}))];
+    }
     let filter = case.script.filter();
     let with_c = case.script.has_arg("--count-df");
     let d = case.script.delete_after();
